@@ -1,7 +1,7 @@
 """C13 - inheritance: overrides are late-bound, super is the parent, parent untouched."""
 from contracts import core, call, rt_run
 from pyvc.report import Report
-from .common import run_fragments, run_rt
+from .common import run_fragments, run_rt, dependency_layer
 from . import wiring
 
 
@@ -23,4 +23,5 @@ def run(tier, seed):
     rep.assumptions.append('A-schematic: chains of length 3 over the stated family (ignore none/named/anonymous per level, X overridden plainly / with super / not at all, '
                            'new rules referring to rules of every ancestor, plain and dotted names); rule bodies are placeholders')
     rep.assumptions.append('the behavioural rows (parse "x"/"B"/"C" through each level) are ground executions on the built chains, run under a 20 s budget')
+    dependency_layer(rep, tier)
     return rep.finish()
